@@ -121,7 +121,7 @@ func SearchParams(kind string, level int) []map[string]int {
 			}
 		}
 	case "BUP":
-		ils := []int{2, 3, 8}
+		ils := []int{2, 3, 4, 8}
 		hbs := []int{1, 3}
 		bss := []int{1, 2, 3}
 		if level == 0 {
